@@ -7,8 +7,9 @@ import TextxVerif.Tx.Build
 
 * textbook PEG: sequence, *ordered* choice (the first alternative that succeeds
   is taken), optional, greedy `*` / `+` with separator (`y+` is `y (sep y)*`; a separator
-  is consumed only when an element follows; an iteration that consumes nothing ends the loop), `#` (every element once, in any order, elements
-  that can match nothing may be absent), `&` / `!` without consumption,
+  is consumed only when an element follows; an iteration that consumes nothing ends the loop), `#` (every element once, in any order;
+  the elements that match something are separated by the separator; when no further element can be taken the
+  remaining ones must match nothing there — see `pUnord`), `&` / `!` without consumption,
   suppression `-` (matches, contributes nothing);
 * before every string / regex match: whitespace of the active set is skipped when
   `skipws` is on, and `Comment` matches are skipped; rule modifiers replace
@@ -349,7 +350,9 @@ def pExpr (x : Env) (cm : Option Nat) : Nat → Ctx → Expr → Nat → SRes (L
           match r with
           | .ok p items =>
             let vs := (items.filter (fun i => !isSep i)).filterMap x.itemValue
-            .ok p (if vs.isEmpty then [] else [.asg a op vs])
+            -- separator matches are unsuppressed matches of the rule: a list assignment whose elements all contributed
+            -- nothing but whose separators matched still contributes (the object exists; no value is added)
+            .ok p (if items.isEmpty then [] else [.asg a op vs])
           | r => r
       | .pred neg y _ =>
         match pExpr x cm f c y pos with
@@ -399,38 +402,41 @@ def pRep (x : Env) (cm : Option Nat) : Nat → Ctx → Expr → Option Sep → N
       | .fail => .ok pos acc
       | r => r
 
-/-- unordered group: repeatedly take the first remaining element that matches something -/
+/-- unordered group: every element is matched once, in any order; the elements that match something are
+separated by the separator.  One round: the separator (not before the first element), then the first remaining
+element that matches *something* there is taken.  A round that takes nothing ends the group, before that
+separator: every remaining element must then match *nothing* where the round tried it (an element that cannot
+match there is missing; one that matches something where the separator is absent lacks its separator) -/
 def pUnord (x : Env) (cm : Option Nat) : Nat → Ctx → List Expr → Option Sep → Nat → List Item → Bool →
     SRes (List Item)
   | 0, _, _, _, _, _, _ => .fuel
   | _+1, _, [], _, pos, acc, _ => .ok pos acc
   | f+1, c, rem, sep, pos, acc, first =>
-    let sp : Option (Nat × List Item) :=
+    -- where the round tries the elements, the separator's item, and whether a wanted separator is absent
+    let sp : Nat × List Item × Bool :=
       match sep, first with
       | some s, false =>
         let p := layout x cm c (x.input.size + 1) pos
         (match x.tokLen s.tok p with
-         | some len => some (p + len, [sepItem s p len])
-         | none => none)
-      | _, _ => some (pos, [])
-    let try1 : SRes (Option (Nat × Nat × List Item)) :=
-      match sp with
-      | none => .ok 0 none
-      | some (p1, _) => pFirst x cm f c rem p1 0
-    match try1, sp with
-    | .ok _ (some (i, p2, items)), some (_, sitems) =>
-        pUnord x cm f c (rem.eraseIdx i) sep p2 (acc ++ sitems ++ items) false
-    | .ok _ _, _ =>
-        -- nothing more can be taken: the rest must be able to match nothing here
-        match pAllEmpty x cm f c rem pos with
+         | some len => (p + len, [sepItem s p len], false)
+         | none => (pos, [], true))
+      | _, _ => (pos, [], false)
+    match pFirst x cm f c rem sp.1 0 with
+    | .ok _ (some (i, p2, items)) =>
+        -- an element that matches something must be preceded by the separator
+        if sp.2.2 then .fail
+        else pUnord x cm f c (rem.eraseIdx i) sep p2 (acc ++ sp.2.1 ++ items) false
+    | .ok _ none =>
+        -- nothing more can be taken: the rest must match nothing here; the group ends before the separator
+        match pAllEmpty x cm f c rem sp.1 with
         | .ok _ true => .ok pos acc
         | .ok _ false => .fail
         | .fail => .fail
         | .fuel => .fuel
         | .skip w => .skip w
-    | .fail, _ => .fail
-    | .fuel, _ => .fuel
-    | .skip w, _ => .skip w
+    | .fail => .fail
+    | .fuel => .fuel
+    | .skip w => .skip w
 
 /-- index, end position and items of the first element of `es` that matches with progress at `pos` -/
 def pFirst (x : Env) (cm : Option Nat) : Nat → Ctx → List Expr → Nat → Nat → SRes (Option (Nat × Nat × List Item))
@@ -443,13 +449,13 @@ def pFirst (x : Env) (cm : Option Nat) : Nat → Ctx → List Expr → Nat → N
     | .fuel => .fuel
     | .skip w => .skip w
 
-/-- can every element of `es` match (nothing) at `pos`? -/
+/-- does every element of `es` match nothing at `pos` (succeed there without consuming input)? -/
 def pAllEmpty (x : Env) (cm : Option Nat) : Nat → Ctx → List Expr → Nat → SRes Bool
   | 0, _, _, _ => .fuel
   | _+1, _, [], _ => .ok 0 true
   | f+1, c, e :: es, pos =>
     match pExpr x cm f c e pos with
-    | .ok _ _ => pAllEmpty x cm f c es pos
+    | .ok p _ => if p = pos then pAllEmpty x cm f c es pos else .ok 0 false
     | .fail => .ok 0 false
     | .fuel => .fuel
     | .skip w => .skip w
